@@ -318,8 +318,21 @@ void *usim_mmap(void *addr, size_t len, int prot, int flags, int fd, off_t off)
 		return mmap(addr, len, prot, flags, fd, off);
 	G.mmap_calls++;
 	if (addr && (flags & MAP_FIXED)) {
+		struct mmap_info *mi;
 		if ((uintptr_t) addr - MMAP_BASE >= MMAP_SIZE)
 			usim_bug("MAP_FIXED outside the simulated region");
+		/*
+		 * MAP_FIXED silently replaces whatever is mapped at the target. The only
+		 * legitimate use here is re-protecting pages inside a mapping the caller
+		 * obtained earlier (the mmap bucket allocator's reservation): anything
+		 * beyond that mapping's length belongs to somebody else.
+		 */
+		mi = find_map((uintptr_t) addr);
+		if (cur && G.active &&
+		    (!mi || (uintptr_t) addr + plen > mi->addr + mi->len))
+			usim_fail("mmap-fixed-outside-reservation",
+				"T%d maps %zu bytes with MAP_FIXED at %#lx, beyond the end of the mapping it was given (%#lx + %zu): this overwrites memory the caller does not own",
+				cur->id, plen, (unsigned long) addr, mi ? (unsigned long) mi->addr : 0UL, mi ? mi->len : (size_t) 0);
 		p = mmap(addr, plen, prot, MAP_PRIVATE | MAP_ANONYMOUS | MAP_FIXED, -1, 0);
 		return p;
 	}
@@ -348,6 +361,13 @@ int usim_munmap(void *addr, size_t len)
 		rt_sb_drain_all(cur);
 	if ((uintptr_t) addr - MMAP_BASE >= MMAP_SIZE)
 		return munmap(addr, len);
+	if (cur && G.active) {
+		struct mmap_info *mi = find_map((uintptr_t) addr);
+		if (!mi || (uintptr_t) addr + plen > mi->addr + mi->len)
+			usim_fail("munmap-outside-mapping",
+				"T%d unmaps %zu bytes at %#lx, beyond the end of the mapping it was given: this unmaps memory the caller does not own",
+				cur->id, plen, (unsigned long) addr);
+	}
 	/* never reused: later touches fault and are reported */
 	if (mmap(addr, plen, PROT_NONE, MAP_PRIVATE | MAP_ANONYMOUS | MAP_FIXED | MAP_NORESERVE, -1, 0) == MAP_FAILED)
 		return -1;
